@@ -265,6 +265,9 @@ pub enum Step {
     NewVarRange { lo: i32, hi: i32 },
     /// point query: `satisfy_under_assumptions([x = v] for every variable)`; `vals[0]` is the dummy
     Point { vals: Vec<i32> },
+    /// a planted solution of the model posted so far (`vals[0]` is the dummy); only announced to the
+    /// trace, where the specification verifies it (spec/Witness.tla)
+    Witness { vals: Vec<i32> },
     NewLit,
     NewLitPred { p: Pred },
     Post { c: Cons, tag: Option<u32> },
@@ -447,6 +450,16 @@ pub fn event_json(e: &verif::Event) -> Value {
             json!({"e":"NogoodAdded","id":id,"preds":pjs(preds),"learned":learned})
         }
         NogoodDeleted { id } => json!({"e":"NogoodDeleted","id":id}),
+        TimeTable {
+            what,
+            incr,
+            had_updates,
+            table_empty,
+            outdated_before,
+            outdated_after,
+            same,
+        } => json!({"e":"TT","what":what,"incr":incr,"upd":had_updates,"empty":table_empty,
+                    "ob":outdated_before,"oa":outdated_after,"same":same}),
         Reif { what, lit, cached } => {
             json!({"e":"Reif","what":what,"lit":pj(lit),"cached":cached})
         }
@@ -528,7 +541,11 @@ pub fn run_scenario(scn: &Scenario) -> Vec<Value> {
     let mut out = vec![];
     for e in events.iter() {
         if !scn.engine && is_engine_event(e) {
-            continue;
+            // the `planted*` families (models too large for every engine event) keep the learned
+            // nogoods, which spec/Witness.tla judges against the verified solutions
+            if !(scn.fam.starts_with("planted") && matches!(e, verif::Event::Learned { .. })) {
+                continue;
+            }
         }
         out.push(event_json(e));
     }
@@ -625,6 +642,10 @@ fn run_step(run: &mut Run, step: &Step) -> bool {
             run.nvars += 1;
             assert_eq!(d.id + 1, run.nvars, "harness: unexpected domain id");
             ext(json!({"e":"NewVarR","v":run.nvars,"lo":lo,"hi":hi}));
+            true
+        }
+        Step::Witness { vals } => {
+            ext(json!({"e":"Witness","vals":vals}));
             true
         }
         Step::Point { vals } => {
